@@ -16,4 +16,8 @@ CHECKS = {
    technique='bounded-exhaustive enumeration (all pairs/triples of a scalar corpus x all operators) against a reference model + algebraic laws on the observed table',
    text='Every (operator, a, b) over a boundary-rich scalar corpus (48 values quick, ~110 thorough), operands bound as variables and as literals, is executed on the real engine and compared with an independent model; trichotomy, antisymmetry, <= law, floor-division identity on all pairs and transitivity on all triples are evaluated on the observed results. Complete within the corpus; says nothing about values outside it.',
    note='Trusted: CPython arithmetic as the meaning of exact integer / IEEE float results; models/scalar.py; corpus excludes NaN/inf.'),
+ 'C01': dict(engine='E1-sched', design_ref='DESIGN.md section 4 C01',
+   technique='stateless schedule exploration of real threads under a baton scheduler (all interleavings / preemption-bounded DFS with prefix replay) + explicit-state BFS over parse histories with full engine snapshots',
+   text='Histories: BFS over all sequences of parses (valid, lexically invalid, grammatically invalid texts) on one engine to the fixpoint of the complete lexer+parser snapshot, for the default, delegate and legacy engines; every transition must equal the fresh-engine outcome of its text. Schedules: 2-3 real threads parsing on one engine with scheduling points before every Lexer.input/token/clone: all interleavings for short texts, all schedules within a stated preemption bound otherwise, plus every line-granularity single-preemption schedule for selected pairs and the yaql.eval module path. Exhaustive within those bounds.',
+   note='Trusted: the baton scheduler serialises threads (switches inside one source line / C-level races are not modelled); hooks only yield; violations are replayed twice on a fresh engine before being reported.'),
 }
